@@ -12,6 +12,7 @@ CLAUSES = {
     8: "CheckConn returned no opinion although the record set authenticates or refuses",
     9: "CheckConn refused permanently although the specification does not refuse",
     10: "CheckConn panicked / temporary failure with records present",
+    22: "discoverTLSA ignored authenticated TLSA records published at the MX name although the canonical name has none of its own (no fallback to the initial name)",
     21: "discoverTLSA used records from an answer without the AD bit, or did not defer on a failing query",
 }
 TRUSTED = [
